@@ -273,3 +273,42 @@ Fixpoint right_spine_plain (P : ptable) (e : expr) : bool :=
   | _ => true
   end.
 End Semicolon.
+
+(** * declarations: the nil padding of [const] value lists
+
+    SPECIFICATION (Lua manual 2.4.3 / 2.5): what the [i]-th declared variable receives from a
+    value list.  A value is abstract: [d_multi] = it is a function call or [...] NOT between
+    parentheses (it provides all the remaining values when it is last), [d_nil] = it is the
+    literal [nil]. *)
+Record dval := { d_id : N; d_multi : bool; d_nil : bool }.
+Inductive recv := RNil | RVal (id : N) (k : nat).   (* nil, or the k-th value of expression id *)
+
+Definition first_of (v : dval) : recv := if d_nil v then RNil else RVal (d_id v) 0.
+
+Fixpoint receives (vals : list dval) (i : nat) : recv :=
+  match vals with
+  | [] => RNil
+  | v :: rest =>
+    match rest with
+    | [] => if d_multi v then RVal (d_id v) i else match i with O => first_of v | S _ => RNil end
+    | _ :: _ => match i with O => first_of v | S i' => receives rest i' end
+    end
+  end.
+
+(** MODEL ([VariableAssignment::required_nil_values], [src/nodes/statements/local_assign.rs], and
+    its use by the three generators): a [const] declaration with more variables than values is
+    written with [nil] appended for the missing ones, unless darklua considers that the last
+    value provides them ([skip]: [matches!(last, Call | VariableArguments)], dumped per kind of
+    expression on every run) *)
+Definition nilv : dval := {| d_id := 0; d_multi := false; d_nil := true |}.
+
+Fixpoint last_dval (l : list dval) : option dval :=
+  match l with
+  | [] => None
+  | v :: rest => match rest with [] => Some v | _ :: _ => last_dval rest end
+  end.
+
+Definition written_values (skip : dval -> bool) (n : nat) (vals : list dval) : list dval :=
+  if Nat.leb n (List.length vals) || match last_dval vals with Some v => skip v | None => false end
+  then vals
+  else vals ++ repeat nilv (n - List.length vals).
